@@ -200,7 +200,7 @@ class _AsymmetricErrorMixin:
 
 
 class _RelativeLossMixin:
-    def __call__(self, y_true, y_pred):
+    def __call__(self, y_true, y_pred, **kwargs):
         """Returns calculated loss metric by passing `y_true` and `y_pred` to
         underlying metric function.
 
@@ -214,6 +214,10 @@ class _RelativeLossMixin:
                 where fh is the forecasting horizon
             Estimated target values.
 
+        **kwargs : dict
+            Further series required by the underlying metric function
+            (`y_pred_benchmark`), passed on as keyword arguments.
+
         Returns
         -------
         loss : float
@@ -222,7 +226,8 @@ class _RelativeLossMixin:
         return self._func(
             y_true,
             y_pred,
-            loss_function=self._relative_func,
+            relative_loss_function=self.relative_loss_function,
+            **kwargs
         )
 
 
